@@ -100,7 +100,8 @@ def cases(draw):
     call = draw(st.sampled_from(["shex_graph"] * 5 + ["profile_graph"]))
     inp = draw(st.sampled_from(["nt", "nt", "nt", "tsv_spo", "turtle", "turtle_iter", "rdflib"]))
     sink = draw(st.sampled_from(["string", "string", "file"]))
-    return {"g": g, "cfg": cfg, "target": target, "thr": thr, "format": fmt, "call": call, "input": inp, "sink": sink}
+    return {"g": g, "cfg": cfg, "target": target, "thr": thr, "format": fmt, "call": call, "input": inp, "sink": sink,
+            "layout": draw(st.integers(0, 7))}
 
 
 def strategy(tier):
@@ -134,12 +135,13 @@ def build_kwargs(case, tmp):
     if inp == "tsv_spo":
         kw["raw_graph"] = to_tsv(triples)
         kw["input_format"] = "tsv_spo"
-    elif inp == "turtle":
-        kw["raw_graph"] = to_simple_turtle(triples, {"ex": "http://ex.org/", "xsd": "http://www.w3.org/2001/XMLSchema#"})
-        kw["input_format"] = "turtle"
-    elif inp == "turtle_iter":
-        kw["raw_graph"] = to_simple_turtle(triples, {"ex": "http://ex.org/", "xsd": "http://www.w3.org/2001/XMLSchema#"})
-        kw["input_format"] = "turtle_iter"
+    elif inp in ("turtle", "turtle_iter"):
+        # legal layouts: statement on one line / dot on its own line / object on the next line / one token per line; integers
+        # also in Turtle's number shorthand
+        lay = case.get("layout", 0)
+        kw["raw_graph"] = to_simple_turtle(triples, {"ex": "http://ex.org/", "xsd": "http://www.w3.org/2001/XMLSchema#"},
+                                           bare_integers=lay >= 4, layout=lay % 4)
+        kw["input_format"] = inp
     elif inp == "rdflib":
         kw.pop("raw_graph")
         kw["rdflib_graph"] = to_rdflib(triples)
